@@ -379,3 +379,43 @@ fn subset<L: TypeLookup>(x: usize, xctx: &[usize], y: usize, yctx: &[usize], l: 
     let mut f = 600usize;
     enum_go(x, xctx, 2, l, &mut f).iter().all(|v| inh(v, y, yctx, l, fuel).yes)
 }
+
+/// Membership of a run-time host value in a type of a compiled program. Functions, processes and
+/// refs are accepted wherever a callable / process / ref type is expected (their internals are not
+/// inspected); a dangling cycle or a type variable accepts anything. A `false` is exact.
+pub fn hval_inhabits<L: TypeLookup>(h: &crate::hval::HVal, id: usize, ctx: &[usize], l: &L) -> bool {
+    use crate::hval::HVal;
+    let Some(t) = l.lookup_type(id) else { return false };
+    match (t, h) {
+        (Type::Variable(_), _) => true,
+        (Type::Cycle(k), _) => {
+            if *k == 0 || *k > ctx.len() {
+                return true;
+            }
+            let at = ctx.len() - *k;
+            hval_inhabits(h, ctx[at], &ctx[..at], l)
+        }
+        (Type::Union(vs), _) => {
+            let mut inner = ctx.to_vec();
+            inner.push(id);
+            vs.iter().any(|x| hval_inhabits(h, *x, &inner, l))
+        }
+        (Type::Integer, HVal::Int(_)) | (Type::Binary, HVal::Bin(_)) | (Type::Reference, HVal::Ref(_)) => true,
+        (Type::Tuple(tid), HVal::Tuple(name, fields)) => {
+            let Some(info) = l.lookup_tuple(*tid) else { return false };
+            info.name == *name && info.fields.len() == fields.len() && info.fields.iter().zip(fields.iter()).all(|((ln, ft), (vn, fv))| ln == vn && hval_inhabits(fv, *ft, ctx, l))
+        }
+        (Type::Partial { name, fields: pf }, HVal::Tuple(vn, fields)) => {
+            if let Some(n) = name
+                && vn.as_ref() != Some(n)
+            {
+                return false;
+            }
+            pf.iter().all(|(pl, pt)| fields.iter().find(|(l2, _)| l2.as_ref() == Some(pl)).is_some_and(|(_, fv)| hval_inhabits(fv, *pt, ctx, l)))
+        }
+        (Type::Callable { .. }, HVal::Fn(..)) | (Type::Callable { .. }, HVal::Builtin(_)) => true,
+        (Type::Process { .. }, HVal::Proc(_)) => true,
+        (Type::Resource(_), HVal::Res(_)) => true,
+        _ => false,
+    }
+}
